@@ -64,7 +64,8 @@ def j_umode(ctx):
         obs.append(('umode:oper-drop', 'MODE: local operator status afterwards is what removing the named modes leaves', Iff(m1['local_oper'], cur['local_oper'])))
     else:
         obs.append(('umode:oper-keep', 'MODE without o/O leaves operator status alone', And(Iff(m1['oper'], m0['oper']), Iff(m1['local_oper'], m0['local_oper']))))
-    if not changes:
+    if len(ps) == 1:
+        # a query (no mode string at all); a mode string without letters is a no-op the statement says nothing about
         n221 = len([l for l in ctx.written if numeric_pred(srv, 221, a)(l)])
         obs.append(('umode:query', 'MODE <own nick> answers 221', n221 == 1))
     obs += frame_obligations(ctx, lambda k: (k[0] == 'umode' and k[1] == a) or (k[0] == 'wallops' and k[1] == a), 'umode:frame')
@@ -117,6 +118,9 @@ def j_opcmd(ctx):
     oper, anyop = m0['oper'], Or(m0['oper'], m0['local_oper'])
     obs = []
     ks = kill_state(ctx)
+    if verb == 'KILL' and len(ps) < 2:
+        # refused by the parser (461): nothing may happen
+        return [('kill:guard', 'KILL without a comment is refused and does nothing', not any(sent for sent, _ in ks.values()))] + frame_obligations(ctx, lambda k: False, 'kill:frame')
     if verb == 'KILL':
         victim, comment = ps[0], ps[1]
         known = pre.user_live(victim) if victim in pre.users else False
